@@ -130,6 +130,11 @@ static size_t find_earliest_deadline(reproc_event_source *sources,
       return i;
     }
 
+    if (current == REPROC_INFINITE) {
+      // No deadline: can never be the earliest deadline.
+      continue;
+    }
+
     if (min == REPROC_INFINITE || current < min) {
       earliest = i;
       min = current;
